@@ -298,6 +298,8 @@ Proof.
   2:{ left. cbn [andb]. rewrite nd_ae_commit_none. apply kq_commit_meta. }
   destruct last.
   2:{ left. cbn [andb]. rewrite nd_ae_commit_none, kq_commit_meta, nd_upd. apply kq_sr_incoming. }
+  destruct (snap_ahead (assemble_snap (ps ++ [(bl, off, len)])) (applied (nd S1))) eqn:Eah.
+  2:{ left. cbn [andb]. rewrite nd_ae_commit_none, kq_commit_meta, nd_upd. apply kq_sr_incoming. }
   cbn [andb].
   set (B := assemble_snap (ps ++ [(bl, off, len)])).
   set (S1b := upd (fun n0 => n0 <| sr := (sr n0) <| stored := Some B |> <| incoming := None |> |>) S1).
